@@ -48,25 +48,45 @@ Theorem C10_coherent_fresh : forall u ls nx, Forall layer_ok (u :: ls) -> Cohere
 Proof. exact fresh_coherent. Qed.
 (* (b) it is preserved by every operation of the proved list [coh_op]:
        lookup, getattr, readdir, read, readlink, getxattr, listxattr,
-       MKDIR, CREATE, MKNOD, SYMLINK, UNLINK, RMDIR,
+       MKDIR, CREATE, MKNOD, SYMLINK, LINK, UNLINK, RMDIR, RENAME (always refused by this implementation),
        OPEN (every flag: read-only, write, read-write, truncating, appending), WRITE, CHMOD, TRUNCATE,
        SETXATTR / REMOVEXATTR of every name except the overlay's own opaque markers
    (these include: copy-up of the whole chain of parent directories, copy-up of a regular file or a
    symlink with its lower backing inodes dropped, removal of an upper whiteout, the opaque marker of
-   the repaired do_mkdir, the whiteout decision of the repaired do_rm with lower_has_child, and
-   rmdir of a merged directory whose upper part holds only whiteouts, which are deleted first), by
+   the repaired do_mkdir, the whiteout decision of the repaired do_rm with lower_has_child,
+   rmdir of a merged directory whose upper part holds only whiteouts, which are deleted first, and
+   link with copy-up of both the source and the new parent), by
    the tree walk of a dump, and hence by every history over those operations, successful or failing.
-   NOT in the list: LINK, RENAME (not modelled), SETXATTR / REMOVEXATTR of an opaque marker name. *)
+   That is every operation of the model except SETXATTR / REMOVEXATTR of an opaque marker name, for
+   which the invariant (and C11) really fails: Props/C11.v, C11_refuted. *)
 Theorem C10_coherent_step : forall o s, coh_op o = true -> Coherent s -> Coherent (run_op o s).
 Proof. exact coherent_step. Qed.
 Theorem C10_coherent_history : forall ops, coh_history ops = true -> forall s, Coherent s -> Coherent (run_dumps ops s).
 Proof. exact coherent_history. Qed.
+(* (c, first half) in every coherent state - hence after every history over [coh_op] from a fresh overlay
+   over any layers - what the client sees IS the overlayfs union (Model [merge]: top-most entry wins,
+   directories merge until an opaque one, whiteouts hide) of the current upper directory and the
+   lower layers, up to the order of directory entries ([teq]).  What remains of the per-operation
+   refinement is therefore a statement about trees only: that the change an operation makes to the
+   upper directory changes this union as the operation changes an ordinary file system
+   (C10_op_refines_full; not proved, refuted for the copy-up-drops-xattrs class, checked by runs). *)
+Theorem C10_view_is_union : forall s, Coherent s ->
+  oteq (merge (all_layers (upper s) (lowers s))) (view (load_all s)).
+Proof. exact coherent_view_union. Qed.
+Theorem C10_view_is_union_history : forall u ls nx ops, Forall layer_ok (u :: ls) -> coh_history ops = true ->
+  let s := run_dumps ops (load_all (fresh (Some u) ls nx)) in
+  oteq (merge (all_layers (upper s) (lowers s))) (view (load_all s)).
+Proof. exact view_union_history. Qed.
+Theorem C10_view_is_union_ser : forall u ls nx ops, Forall layer_ok (u :: ls) -> coh_history ops = true ->
+  let s := run_dumps ops (load_all (fresh (Some u) ls nx)) in
+  ser_opt (view (load_all s)) = ser_opt (merge (all_layers (upper s) (lowers s))).
+Proof. exact view_union_history_ser. Qed.
 Example C10_coh_op_list :
   coh_op (OMkdir ["a"; "b"] 493) = true /\ coh_op (OLookup ["a"]) = true /\ coh_op (OReaddir []) = true /\
   coh_op (OCreate ["a"] 420) = true /\ coh_op (OSymlink ["a"] []) = true /\ coh_op (OUnlink ["a"]) = true /\ coh_op (ORmdir ["a"]) = true /\ coh_op (OWrite ["a"] 0 []) = true /\
   coh_op (OOpen ["a"] OF_WT) = true /\ coh_op (OChmod ["a"] 0) = true /\ coh_op (OTruncate ["a"] 0) = true /\
   coh_op (OSetxattr ["a"] "user.k" []) = true /\ coh_op (OSetxattr ["a"] "trusted.overlay.opaque" []) = false /\
-  coh_op (OLink ["a"] ["b"]) = false.
+  coh_op (OLink ["a"] ["b"]) = true /\ coh_op (ORename ["a"] ["b"]) = true /\ coh_op (ORemovexattr ["a"] "user.overlay.opaque") = false.
 Proof. repeat split. Qed.
 
 (* Invariant of the node cache: a backing inode flagged in_upper_layer lives in layer 0 and only
@@ -130,6 +150,9 @@ Print Assumptions C10_readonly_history.
 Print Assumptions C10_coherent_fresh.
 Print Assumptions C10_coherent_step.
 Print Assumptions C10_coherent_history.
+Print Assumptions C10_view_is_union.
+Print Assumptions C10_view_is_union_history.
+Print Assumptions C10_view_is_union_ser.
 Print Assumptions C10_fresh_invariant.
 Print Assumptions C10_lowers_untouched.
 Print Assumptions C10_lowers_untouched_history.
